@@ -20,3 +20,19 @@ if r.get('status') != 'undecided' or r.get('split_gaps') != ['z=2']:
     print('case-split accounting self-test FAILED:', r.get('status'), r.get('split_gaps')); sys.exit(1)
 print('case-split accounting self-test ok')
 PY
+# positive control of the read-only-schema detector: a deliberate write into a frozen
+# schema must be reported by the engine and must fail the native snapshot comparison
+./bin/gosym -dir harness -pkg verifh/hval -fn FrozenWriteSelfTest -out /tmp/verif_fw_selftest.json >/dev/null 2>&1 || true
+(cd harness && go build -o /tmp/verif_replay_selftest ./cmd/replay)
+/tmp/verif_replay_selftest verifh/hval.FrozenWriteSelfTest > /tmp/verif_fw_native.txt 2>&1 || true
+python3 - <<'PY'
+import json, sys, os
+r = json.load(open('/tmp/verif_fw_selftest.json'))
+nat = open('/tmp/verif_fw_native.txt').read()
+for f in ('/tmp/verif_fw_selftest.json', '/tmp/verif_fw_native.txt', '/tmp/verif_replay_selftest'):
+    os.remove(f)
+labels = [v['Label'] for v in r.get('violations') or []]
+if labels != ['frozen-write'] or 'FAILED C11.schema-unchanged' not in nat:
+    print('frozen-write positive control FAILED:', labels, nat[-200:]); sys.exit(1)
+print('frozen-write positive control ok')
+PY
